@@ -509,7 +509,8 @@ def factorize_2d(
 
     if sort:
         argsort = multi_index.argsort()
-        combined_codes = np.argsort(argsort)[combined_codes]
+        not_null = combined_codes != -1
+        combined_codes[not_null] = np.argsort(argsort)[combined_codes[not_null]]
         multi_index = multi_index[argsort]
 
     return combined_codes, multi_index
